@@ -66,8 +66,9 @@ HasDefault(n) == "default7" \in n.p
 OnWire(t, v, p) == \A i \in 0..Len(p) : Present(NodeAt(t, SubSeq(p, 1, i)), v)
 \* does an accepted call with variant v write slot p?  (AbsentOptionalKeeps: an absent OPTIONAL member without
 \* DEFAULT, and everything below an absent member, is not written)
-Written(t, v, p) == IF p = <<>> THEN TRUE
-                    ELSE OnWire(t, v, Front(p)) /\ (Present(NodeAt(t, p), v) \/ HasDefault(NodeAt(t, p)))
+\* the first absent node on the way decides: with DEFAULT the member (and the inside of its EXPLICIT wrapper) is set
+Written(t, v, p) == LET gone == {i \in 0..Len(p) : ~Present(NodeAt(t, SubSeq(p, 1, i)), v)} IN
+                    gone = {} \/ HasDefault(NodeAt(t, SubSeq(p, 1, CHOOSE i \in gone : \A j \in gone : i <= j)))
 
 Zero(t) == [i \in 1..Len(SlotSeq(t, <<>>)) |-> 0]
 
@@ -115,7 +116,9 @@ Walk ==
             \E p \in {IF ps = {} THEN <<>> ELSE RandomElement(ps)} :
             LET ds == IF ps = {} THEN {}
                       ELSE {x \in Defects : Applicable(x, t, v, p)
-                                            /\ ~(x = "setOfUnsorted" /\ key.shape \in LengthShapes)} IN  \* (equal elements)
+                                            /\ ~(x = "setOfUnsorted" /\ key.shape \in LengthShapes)   \* (equal elements)
+                                            \* (an OPTIONAL member taken as absent is not in the slot model)
+                                            /\ ~(x \in ClassDefects /\ IsOpt(NodeAt(t, p)))} IN
             \E df \in {IF coin <= 6 \/ ds = {} THEN "none" ELSE RandomElement(ds)} :
             LET tfs == IF df = "none" /\ coin <= 2 /\ HasKind(t, TimeKinds) /\ v \in {0, 2}
                        THEN {x \in TimeForms : TfOK(t, v, x)} ELSE {} IN
@@ -143,7 +146,7 @@ FreshIsAlone == \A i \in Calls : (hist[i].dest = "fresh" /\ hist[i].e.mode = "ac
 KeepsOnlyAbsentOptional ==
   \A i \in Calls : hist[i].e.mode = "accept" =>
      \A k \in DOMAIN hist[i].holds :
-        hist[i].holds[k] # i => \E j \in 1..Len(Slots[k]) :
+        hist[i].holds[k] # i => \E j \in 0..Len(Slots[k]) :
                                    LET n == NodeAt(HTree, SubSeq(Slots[k], 1, j)) IN IsOpt(n) /\ ~Present(n, hist[i].c.v) /\ ~HasDefault(n)
 \* ElementsAreFresh: no slot lies below a SEQUENCE OF / SET OF (so nothing below one can be kept)
 ElementsAreFresh == \A k \in DOMAIN Slots : \A j \in 0..(Len(Slots[k]) - 1) : ~IsSeq(NodeAt(HTree, SubSeq(Slots[k], 1, j)))
